@@ -327,6 +327,11 @@ def run(ctx):
                         continue
                     if ctx.quick() and label.startswith("all-N2") and (k // ctx.nshards) % 9:
                         continue
+                    if ctx.quick() and ("-upper-host" in label or "-empty-query" in label) and not label.startswith("self-loop"):
+                        # equivalent-spelling variants: a thinner grid in the quick tier
+                        length = int(label.split("-")[1])
+                        if mr not in (0, 2, 6) or length not in (1, 2, 3, 5):
+                            continue
                     run_graph(ctx, world, nodes, edges, start, mr, follow, label)
         ctx.count("exhaustive_scope", f"{len(graphs)} graphs x max_redirects 0..6" + (" (all-N2 sampled 1/9)" if ctx.quick() else ""))
         n = ctx.pick(160, 6000) // ctx.nshards
